@@ -9,7 +9,8 @@ API
     frame_header_len(version) -> 8 | 9
     body_bytes(kind, length, seed, version=4) -> bytes         deterministic body content
     event_body(desc, version) -> (bytes, event_type, expected_args)
-    make_conn(version, compression=False) -> FeedConnection    (.pushed, .closes, .feed(chunk))
+    make_conn(version, compression=False) -> FeedConnection    (.pushed, .closes, .feed(chunk), .steps,
+                                                               .step_budget -> RunawayLoop when exceeded)
     resolve_cuts(total, boundaries, spec) -> sorted cut offsets in (0, total)
     feed(conn, data, cuts, on_chunk=None) -> bytes fed         stops when the connection closed
     harness_lz4()                                              context manager installing the codec
@@ -162,6 +163,10 @@ def harness_lz4():
 _CLS = {}
 
 
+class RunawayLoop(Exception):
+    """the read loop of the connection exceeded its step budget (would not terminate)"""
+
+
 def _conn_class():
     if "cls" in _CLS:
         return _CLS["cls"]
@@ -175,6 +180,28 @@ def _conn_class():
             Connection.__init__(self, *a, **kw)
             self.pushed = []
             self.closes = 0
+            self.steps = 0
+            self.step_budget = None      # set by the check: max loop steps for the whole case
+
+        # Every iteration of process_io_buffer calls at least one of these three methods, so
+        # counting them turns a non-terminating read loop (a broken tree) into an exception
+        # the check reports, instead of a hang.  Deterministic: a step count, not a clock.
+        def _tick(self):
+            self.steps += 1
+            if self.step_budget is not None and self.steps > self.step_budget:
+                raise RunawayLoop("process_io_buffer made more than %d steps" % self.step_budget)
+
+        def _read_frame_header(self):
+            self._tick()
+            return Connection._read_frame_header(self)
+
+        def _process_segment_buffer(self):
+            self._tick()
+            return Connection._process_segment_buffer(self)
+
+        def process_msg(self, header, body):
+            self._tick()
+            return Connection.process_msg(self, header, body)
 
         def push(self, data):
             self.pushed.append(bytes(data))
